@@ -81,8 +81,9 @@ theorem pRemoveFile_file (m : FMap) (k : Str) (e : Entry) (hf : m.find? k = some
 
 theorem pCreateDir_fresh (m : FMap) (k : Str) (hpar : Mem.parentOk m k = true) (hs : '/' ∈ k)
     (hf : m.find? k = none) : Mem.pCreateDir m k = (.ok (), m.insert k dirEntryNow) := by
+  obtain ⟨pe, hpe, hpd⟩ := Mem.parentOk_spec m k hpar
   unfold Mem.pCreateDir Mem.createDir Mem.ensureHasParent
-  simp [hpar, hs, parentOk_contains hpar, hf, Res.withPath]
+  simp [hpar, hs, hpe, hpd, hf, Res.withPath]
 
 theorem renderC_not_in_chain (xs ds : List Str) (hx : ∀ c ∈ xs, '/' ∉ c)
     (hds : ∀ c ∈ ds, '/' ∉ c) (hlen : ds.length < xs.length) : renderC xs ∉ chain [] ds := by
@@ -113,7 +114,7 @@ theorem pAddWhiteout_result (m : FMap) (ds : List Str) (n : Str)
   have hn' := goodComp_wo hn
   obtain ⟨e0, he0, hd0⟩ := hrootdir
   have hmk := mkdirs_chain m [] (woDir :: ds) (by simp) (good_noSlash hds')
-    (contains_of_find he0) hdirs
+    ⟨e0, he0, hd0⟩ hdirs
   have hmr : marker (renderC (ds ++ [n])) = renderC ((woDir :: ds) ++ [n ++ woSuffix]) :=
     marker_renderC ds n
   have hpar := parentOk_fillDirs_gen (n := n ++ woSuffix) ⟨e0, he0, hd0⟩ hds' hn' hdirs
@@ -122,7 +123,7 @@ theorem pAddWhiteout_result (m : FMap) (ds : List Str) (n : Str)
   rw [← hmr] at hpar hfind
   have hcreate := Mem.createFile_fresh (fillDirs m (chain [] (woDir :: ds)))
     (marker (renderC (ds ++ [n]))) (by rw [hmr]; exact slash_mem_renderC (by simp))
-    (parentOk_contains hpar) (by rw [hfind]; exact hnm)
+    hpar (by rw [hfind]; exact hnm)
   unfold pAddWhiteout
   rw [List.dropLast_concat, hmk]
   simp only [andThen, Mem.pTouch, hpar, if_true, hcreate]
@@ -240,7 +241,7 @@ theorem pRemoveFile_result (mu ml : FMap) (ds : List Str) (n : Str) (hds : ∀ c
     exact hres
   · obtain ⟨em, h1, h2, _⟩ := find?_memPublish_self
       ((fillDirs m1 (chain [] (woDir :: ds))).insert (marker (renderC (ds ++ [n]))) fileEntryNow)
-      (marker (renderC (ds ++ [n]))) []
+      (marker (renderC (ds ++ [n]))) [] fileEntryNow (FMap.find?_insert_self _ _ _) rfl
     exact ⟨em, h1, h2⟩
   · rw [find?_memPublish_ne _ _ _ _ hmne.symm, FMap.find?_insert_ne _ _ _ _ hmne.symm,
       find?_fillDirs_not_mem _ _ _ hpnc, hm1, if_pos rfl]
@@ -471,7 +472,7 @@ theorem recreated_file_fresh (ds : List Str) (n : Str) (hds : ∀ c ∈ ds, Good
   have hopen : Mem.pOpenW (fillDirs mu (chain [] ds)) (renderC (ds ++ [n])) =
       (.ok (), (fillDirs mu (chain [] ds)).insert (renderC (ds ++ [n])) fileEntryNow) := by
     unfold Mem.pOpenW
-    rw [if_pos hpar, Mem.createFile_fresh _ _ (slash_mem_renderC hne) (parentOk_contains hpar)
+    rw [if_pos hpar, Mem.createFile_fresh _ _ (slash_mem_renderC hne) hpar
       (by rw [hp0]; exact hup)]
     rfl
   have hm2 : ((fillDirs mu (chain [] ds)).insert (renderC (ds ++ [n])) fileEntryNow).find?
@@ -490,8 +491,14 @@ theorem recreated_file_fresh (ds : List Str) (n : Str) (hds : ∀ c ∈ ds, Good
     rw [hE]
     simp only [andThen, hrefuse, hopen, hclear]
   have h3 := h.setU (pCreateFile mu ml (ds ++ [n])).2
+  -- the file just created by `create_file` sits at the key, so the session publishes
+  have hcreated : (pCreateFile mu ml (ds ++ [n])).2.find? (renderC (ds ++ [n])) =
+      some fileEntryNow := by
+    rw [hpure]
+    show (FMap.erase _ _).find? _ = _
+    rw [FMap.find?_erase_ne _ _ _ hne'.symm, FMap.find?_insert_self]
   obtain ⟨e', he', hft, hct⟩ := find?_memPublish_self (pCreateFile mu ml (ds ++ [n])).2
-    (renderC (ds ++ [n])) (cursorWrite [] 0 bs)
+    (renderC (ds ++ [n])) (cursorWrite [] 0 bs) fileEntryNow hcreated rfl
   have hgone : (memPublish (pCreateFile mu ml (ds ++ [n])).2 (renderC (ds ++ [n]))
       (cursorWrite [] 0 bs)).contains (marker (renderC (ds ++ [n]))) = false := by
     unfold FMap.contains
